@@ -10,6 +10,7 @@ INVARIANT NeverReadsAhead
 INVARIANT DeliversReference
 INVARIANT StuckIffReference
 INVARIANT NoSpin
+INVARIANT RefinesStreamLen
 INVARIANT EmitState
 INVARIANT EmitWire
 CHECK_DEADLOCK FALSE
